@@ -38,6 +38,9 @@ var c08DecBoundary = []string{
 	// coefficients overflows or loses the sign)
 	"-9.223372036854775808", "9.223372036854775807", "9.223372036854775808", "-0.9223372036854775808", "-922337203685477580.8",
 	"18.446744073709551616", "-18.446744073709551615", "-2.147483648", "4.294967296", "-0.1", "-0.01", "0.01",
+	// a very long fraction next to operands of ordinary scale (the exponents differ by more than
+	// 1024: scale is not magnitude, no operand may be dropped as negligible)
+	"2." + strings.Repeat("0", 1100) + "1", "-123456.5" + strings.Repeat("0", 1100) + "25", "0." + strings.Repeat("0", 1030) + "7", "7." + strings.Repeat("3", 1025),
 }
 
 func c08IsIntKind(k string) bool {
